@@ -376,7 +376,7 @@ pub fn run(ctx: &Ctx) -> i32 {
     }
     ctx.finish(
         "model_checking",
-        vec![s],
+        vec![s, generated_keys(ctx)],
         &[
             "all four signers are deterministic for a fixed timestamp, so equal histories give equal bytes and the graph closes; the result then holds for histories of any length over this alphabet",
             "every transition is a call of the real API (no separate model to validate): traces_validated_against_impl = transitions",
@@ -390,6 +390,89 @@ pub fn run(ctx: &Ctx) -> i32 {
             ("max_depth", json!(max_depth)),
         ],
     )
+}
+
+/// Keys generated by the harness (deterministic seeds): the reported key id must be the full 16 hex digits whatever
+/// digits it starts with, a package signed with such a key verifies with it and with no other.
+fn generated_keys(ctx: &Ctx) -> SubReport {
+    use pgp::composed::{KeyType, SecretKeyParamsBuilder};
+    use pgp::types::PublicKeyTrait;
+    use rand::SeedableRng;
+    let env = Env::new(&ctx.repo, "c10k");
+    let pkg = crate::corpus::one_file().build(&env).unwrap_or_else(|e| crate::ctx::machinery(&format!("c10 keys: {}", e)));
+    let n_seeds: u64 = if ctx.thorough() { 256 } else { 48 };
+    // generate in parallel; keep every key whose id has a leading zero digit or zero bytes inside, and the first eight others
+    let made: Vec<Option<(u64, String, rpm::signature::pgp::Signer, rpm::signature::pgp::Verifier)>> = vlib::par::par_fold(n_seeds, Vec::new, |seed, out: &mut Vec<_>| {
+        let mut rng = rand::rngs::StdRng::seed_from_u64(0x5eed_0000 + seed);
+        let params = SecretKeyParamsBuilder::default()
+            .key_type(KeyType::EdDSALegacy)
+            .can_sign(true)
+            .can_certify(true)
+            .primary_user_id(format!("generated key {} <k{}@example.org>", seed, seed))
+            .created_at(chrono::TimeZone::timestamp_opt(&chrono::Utc, 1_500_000_000, 0).unwrap())
+            .build();
+        let r = (|| -> Result<_, String> {
+            let sk = params.map_err(|e| e.to_string())?.generate(&mut rng).map_err(|e| e.to_string())?;
+            let ssk = sk.sign(&mut rng, String::new).map_err(|e| e.to_string())?;
+            let id = hex::encode(ssk.key_id().as_ref());
+            let spk: pgp::SignedPublicKey = ssk.clone().into();
+            let asc = spk.to_armored_string(None.into()).map_err(|e| e.to_string())?;
+            let verifier = rpm::signature::pgp::Verifier::load_from_asc_bytes(asc.as_bytes()).map_err(|e| e.to_string())?;
+            let signer = rpm::signature::pgp::Signer::new(ssk).map_err(|e| e.to_string())?;
+            Ok((seed, id, signer, verifier))
+        })();
+        match r {
+            Ok(x) => out.push(Some(x)),
+            Err(e) => crate::ctx::machinery(&format!("c10 keys: key generation failed: {}", e)),
+        }
+    })
+    .into_iter()
+    .flatten()
+    .collect();
+    let mut keys: Vec<_> = made.into_iter().flatten().collect();
+    keys.sort_by_key(|k| k.0);
+    let interesting = |id: &str| id.starts_with('0') || id.contains("00");
+    let mut chosen = vec![];
+    let mut plain = 0;
+    for k in keys {
+        if interesting(&k.1) {
+            chosen.push(k);
+        } else if plain < 8 {
+            plain += 1;
+            chosen.push(k);
+        }
+    }
+    let mut acc = Acc::new();
+    for (i, (seed, id, signer, verifier)) in chosen.iter().enumerate() {
+        acc.evals += 1;
+        let case = || json!({"generated_key_seed": seed, "key_id": id});
+        let mut p = pkg.clone();
+        let r = catch(|| {
+            p.sign_with_timestamp(signer, 1_600_000_000u32)?;
+            let b = bytes_of(&p);
+            let q = rpm::Package::parse(&mut &b[..])?;
+            Ok::<_, rpm::Error>((q.signature_key_ids(), q.verify_signature(verifier).is_ok(), chosen.iter().enumerate().filter(|(j, _)| *j != i).take(3).map(|(_, o)| q.verify_signature(&o.3).is_ok()).collect::<Vec<_>>()))
+        });
+        match r {
+            Err(pn) => acc.viol(panic_violation("generated-keys", &pn, case()).rank(i as u64)),
+            Ok(Err(e)) => acc.viol(Violation::new("generated-keys", format!("signing with a freshly generated Ed25519 key fails: {}", e), case()).sig("clause", "operation-fails").rank(i as u64)),
+            Ok(Ok((ids, own, others))) => {
+                acc.nontrivial += 1;
+                acc.count(if id.starts_with('0') { "key id with a leading zero digit" } else if id.contains("00") { "key id with a zero byte inside" } else { "other key id" });
+                if ids.as_ref().ok() != Some(&vec![id.clone()]) {
+                    acc.viol(Violation::new("generated-keys", format!("signed by the key with id {}, signature_key_ids() = {:?}", id, ids.map_err(|e| e.to_string())), case()).sig("clause", "reported-signer").rank(i as u64));
+                }
+                if !own {
+                    acc.viol(Violation::new("generated-keys", format!("the package does not verify with the key ({}) that signed it", id), case()).sig("clause", "last-signer-does-not-verify").rank(i as u64));
+                }
+                if others.iter().any(|x| *x) {
+                    acc.viol(Violation::new("generated-keys", "the package verifies with another generated key", case()).sig("clause", "other-key-verifies").rank(i as u64));
+                }
+                acc.sample(i as u64, case);
+            }
+        }
+    }
+    SubReport::new("generated-keys", "A", &format!("{} Ed25519 keys generated from fixed seeds; every one whose 64-bit key id starts with a zero digit or contains a zero byte, and eight others ({} keys): sign a built package, write, parse: signature_key_ids() is exactly the 16-digit id, the key verifies the package, three other generated keys do not", n_seeds, chosen.len()), acc)
 }
 
 pub fn replay(ctx: &Ctx, v: &Value) -> i32 {
